@@ -81,6 +81,10 @@ class Monitor:
         # told to reach n, does not execute them (the calculation has ended), and only then calls finalize(n)
         self.late_left = int(cfg.get("late", 0)) if C.is_online(cfg) else 0
         self.in_late_window = False
+        self.fin_arg = cfg["n"]
+        if cfg.get("np"):
+            import numpy as np
+            self.fin_arg = np.int64(cfg["n"])
 
     # -- helpers ----------------------------------------------------------
     def v(self, prop, pred, detail):
@@ -201,7 +205,7 @@ class Monitor:
                 self.late_left -= 1
                 return
             try:
-                quiet(self.sched.finalize, n)
+                quiet(self.sched.finalize, self.fin_arg)
             except Exception as e:
                 raise LibError("finalize(%d)" % n, e)
             self.finalized = True
@@ -272,7 +276,7 @@ class Monitor:
             if n1 - n0 > 1 and n1 > n:
                 self.fin_inside_multistep = True
             try:
-                quiet(self.sched.finalize, n)
+                quiet(self.sched.finalize, self.fin_arg)
             except Exception as e:
                 raise LibError("finalize(%d)" % n, e)
             self.finalized = True
